@@ -846,8 +846,9 @@ class DMRGBackendImpl(MPSBackendImpl):
 
 def create_impl(data: SequenceData, config: MPSConfig) -> MPSBackendImpl:
 
+    if config.solver == Solver.DMRG:
+        # refuses any noise model with noise types
+        return DMRGBackendImpl(config, data)
     if data.lindblad_ops:
         return NoisyMPSBackendImpl(config, data)
-    if config.solver == Solver.DMRG:
-        return DMRGBackendImpl(config, data)
     return MPSBackendImpl(config, data)
